@@ -951,8 +951,13 @@ def run_book(case):
         try:
             if kind in ('group', 'group_sites'):
                 idxs, pol, labels = step[1], step[2], step[3]
-                sites = [simple[i][0] for i in idxs]
-                mirs = [simple[i][1] for i in idxs]
+                # (an entry ['g', r] = a grouped site created earlier: grouped sites of grouped sites)
+                tg = [tgt(i) for i in idxs]
+                if any(t is None for t in tg) or np.prod([len(t[1].labels) for t in tg]) > 64:
+                    out['applied'].append('skipped')
+                    continue
+                sites = [t[0] for t in tg]
+                mirs = [t[1] for t in tg]
                 if pol == 'same' and not _same_chinfo(sites):
                     touched = _unique(sites)
                     if not common_same(sites, mirs):
@@ -1071,6 +1076,16 @@ def run_book(case):
                     cand = sorted(n for n in mir.ops if n not in ('Id', 'JW'))
                     if kind == 'sort_charge':
                         bunch = bool(step[2]) if len(step) > 2 else True
+                        if len(step) > 3 and step[3] and mir.simple and site.dim >= 3:
+                            # most sites are sorted already (nothing to do): first permute the basis (a permutation that is not its own
+                            # inverse) through the public change_charge, so that sort_charge has to permute it back
+                            d_ = site.dim
+                            p_ = np.arange(d_)
+                            cyc = rng.permutation(d_)[:3]
+                            p_[cyc] = p_[np.roll(cyc, 1)]
+                            leg_ = site.leg
+                            site.change_charge(npc.LegCharge.from_qflat(leg_.chinfo, leg_.to_qflat()[p_], leg_.qconj), p_)
+                            step = list(step) + ['scrambled']
                         lab0 = dict(site.state_labels)
                         ret = site.sort_charge(bunch=bunch)
                         pp = _perm_return_problem('sort_charge(bunch=%s)' % bunch, ret, lab0, dict(site.state_labels))
@@ -1154,15 +1169,17 @@ def run_book(case):
                         step = list(step) + [old]
                     else:
                         old = cand[step[2] % len(cand)]
+                        # (hc_ops is not symmetric when add_op(hc=None) paired a new operator with the conjugate of an existing pair)
+                        asym = any(v == old and site.hc_ops.get(old) != k_ for k_, v in site.hc_ops.items())
                         site.remove_op(old)
                         Mo = mir.ops.pop(old)[0]
                         if mir.hc is not None:
                             mir.hc.pop(old, None)
                             # the entries of operators paired with the removed one go as well (or stay, when paired with another one)
                             for n2, (M2, _) in mir.ops.items():
-                                if np.max(np.abs(M2.conj().T - Mo)) < 1e-12 and np.max(np.abs(M2 - M2.conj().T)) > 1e-12:
+                                if np.max(np.abs(M2.conj().T - Mo)) < 1e-12:
                                     mir.hc[n2] = None
-                        step = list(step) + [old]
+                        step = list(step) + [old, 'hc_ops asymmetric before' if asym else 'hc_ops symmetric before']
             else:
                 raise ValueError('unknown step ' + str(kind))
         except Exception as e:
@@ -1262,6 +1279,9 @@ def run_mpsterm(case):
                     # term_R stays on the chain)
                     j0 = job['i_L'] + max(i for _, i in tL) + 1 - min(i for _, i in tR)
                     jR = [j for j in range(j0, L) if j + max(i for _, i in tR) < L]
+                    if not jR:          # (an empty default range: nothing documented; use the explicit list)
+                        jR = job['j_R']
+                        job = dict(job, default_j_R=False)
                 r['want'] = [_cl(ev(T(tL, job['i_L']) + T(tR, j))) for j in sorted(jR)]
                 r['got'] = [_cl(x) for x in psi.term_correlation_function_right(tL, tR, job['i_L'], None if job.get('default_j_R') else jR)]
             elif f == 'tcf_left':
